@@ -225,7 +225,7 @@ let prog_line line =
        | Inl er ->
            let fs = (match er with NAnalyze _ -> "" | _ -> "\tfacts=" ^ facts_string bs e) in
            "new=" ^ newerr_string er ^ fs
-       | Inr (RWrap (_, n)) -> Printf.sprintf "new=wrap:%d\tfacts=%s" (int_of_nat n) (facts_string bs e)
+       | Inr (RWrap (_, n) as r) -> Printf.sprintf "new=wrap:%d\tfacts=%s\tf1=%d" (int_of_nat n) (facts_string bs e) (if f1_risk r then 1 else 0)
        | Inr (RFancy (p, n) as r) ->
            Printf.sprintf "new=fancy:%d\tfacts=%s\tprog=%s\tnsaves=%d\tf1=%d" (int_of_nat n) (facts_string bs e)
              (String.concat " " (List.map insn_string p.p_body)) (int_of_nat p.p_nsaves)
@@ -268,16 +268,18 @@ let run_line line =
        | _ -> "res=NOPROG")
   | _ -> failwith "run: bad line"
 
-(* mode sem: the reference semantics; in "tree bs text pos flags"; out = saves or N *)
+(* mode sem: the reference semantics; in "tree bs text poslist flags"; out = per position the
+   capture slots or N, joined by ';' *)
 let sem_line line =
   match split_on '\t' line with
-  | tree :: _bs :: text :: pos :: flags :: _ ->
+  | tree :: _bs :: text :: poss :: flags :: _ ->
       let e = parse_tree tree in
       let t = bytes_of_hex text in
-      let cx = { c_text = t; c_pos = nat_of_int (int_of_string pos); c_skipped = (flags = "1") } in
-      (match search cx e (S (length t)) with
-       | Some caps -> "M:" ^ csv us caps
-       | None -> "N")
+      String.concat ";" (List.map (fun pos ->
+        let cx = { c_text = t; c_pos = nat_of_int (int_of_string pos); c_skipped = (flags = "1") } in
+        match search cx e (S (length t)) with
+        | Some caps -> "M:" ^ csv us caps
+        | None -> "N") (split_on ',' poss))
   | _ -> failwith "sem: bad line"
 
 (* ---------------- api ---------------- *)
